@@ -187,6 +187,27 @@ func IteU64(c bool, a, b uint64) uint64 {
 	return b
 }
 
+func IteU32(c bool, a, b uint32) uint32 {
+	if c {
+		return a
+	}
+	return b
+}
+
+func IteU16(c bool, a, b uint16) uint16 {
+	if c {
+		return a
+	}
+	return b
+}
+
+func IteInt(c bool, a, b int) int {
+	if c {
+		return a
+	}
+	return b
+}
+
 // BytesEq compares two byte slices without forking per byte.
 func BytesEq(a, b []byte) bool { return string(a) == string(b) }
 
@@ -218,6 +239,18 @@ func fmtObs(v interface{}) string {
 	}
 	return fmt.Sprintf("%d", v)
 }
+
+// Summarize replaces a pure byte-folding function by an uninterpreted fold for the rest
+// of the path (engine only; natively the real function runs).
+func Summarize(fn string) {}
+
+// BytesLen returns a byte slice of (possibly symbolic) length n whose contents are
+// never inspected by the engine (len/cap only).
+func BytesLen(name string, n int) []byte { return make([]byte, n) }
+
+// ExactFmt makes the engine format symbolic integers exactly (forking over their
+// values) instead of printing a placeholder. Needed only where formatted text is parsed back.
+func ExactFmt(on bool) {}
 
 // Tier is 0 for the quick tier and 1 for the thorough tier.
 func Tier() int { load(); return rf.Tier }
